@@ -444,6 +444,13 @@ func init() {
 			c.Gauge("universe_size", int64(len(U)))
 			pick := func() run.TV { return run.TV{V: U[r.IntN(len(U))]} }
 			kC03Sync.Do(c, c03Sync{"builtin.go"})
+			for _, t := range c16NotOneJSON {
+				kC03FromJSON.Do(c, c03FromJSON{Text: t})
+				kC03FromJSON.Do(c, c03FromJSON{Text: " " + t + "\n"})
+			}
+			for _, t := range c16OneJSON {
+				kC03FromJSON.Do(c, c03FromJSON{Text: t, Valid: true})
+			}
 			names := builtinNames()
 			names = append(names, "_plus/0", "_negate/0", "_index/2", "_slice/3", "_tohtml/0", "_touri/0", "_tourid/0", "_tocsv/0", "_totsv/0", "_tosh/0", "_tobase64/0", "_tobase64d/0", "_min_by/1", "_max_by/1", "_sort_by/1", "_group_by/1", "_unique_by/1", "_captures/0")
 			ops := []string{"+", "-", "*", "/", "%", "==", "!=", "<", "<=", ">", ">=", "//", "and", "or"}
